@@ -191,6 +191,72 @@ def _log_ok(urls, rstatus_of):
     return True
 
 
+def _concurrent_origin(p1, a1, p2, a2, pg1, pg2, robots_status_i, same_origin):
+    """Two items in flight at once (concurrency 2), schedules within a preemption bound: no URL of an origin is requested before a
+    robots.txt fetch for it has COMPLETED, none after it is requested that robots.txt disallows, and robots.txt is not requested
+    again once a fetch of it has completed (fetches already under way when it completes are tolerated)."""
+    from harness import aio
+    clear_url_memo()
+    p1 = pick(list(range(40)), p1)
+    a1 = pick([1, 2], a1 - 1)
+    p2 = pick(list(range(41)), p2)
+    a2 = pick([1, 2], a2 - 1)
+    rstatus = pick([200, 404], robots_status_i)
+    u1 = 'http://a.example' + pick(_PAGES, pg1)
+    u2 = ('http://a.example' if same_origin else 'http://b.example') + pick(_PAGES, pg2)
+    if u1 == u2:
+        return True
+    st = {'i': 0}
+
+    def chooser(n):
+        i = st['i']
+        st['i'] = i + 1
+        a = a1 if i == p1 else (a2 if i == p2 else 0)
+        return a if a < n else n - 1
+
+    def answer(k, request):
+        if request.url_info.path == '/robots.txt':
+            return (rstatus, None)
+        return (200, None)
+    with nosym():
+        _install_tempfiles()
+        client = stubs.StubHTTPClient(answer=answer)
+        client.yields = True
+        client.body_for = lambda resp: _RULES if resp.request.url_info.path == '/robots.txt' else b''
+        checker = RobotsTxtChecker(web_client=WebClient(http_client=client))
+        env = stubs.build_web(client, filters=[F.SchemeFilter()], robots_checker=checker)
+        _install_tempfiles()
+        items = []
+        for u in (u1, u2):
+            env.table.add(u)
+            items.append(ItemSession(env.app, env.table.check_out(Status.todo)))
+
+        async def main():
+            await asyncio.gather(*[env.proc.process(it) for it in items])
+        try:
+            aio.run_choice(main, chooser, max_steps=4000)
+        except aio.Deadlock:
+            return False
+    obtained = set()
+    for ev in client.events:
+        if ev[0] not in ('start', 'download'):
+            continue
+        info = URLInfo.parse(ev[1])
+        origin = (info.scheme, info.hostname, info.port)
+        if info.path == '/robots.txt':
+            if ev[0] == 'start' and origin in obtained:
+                return False                          # requested again although a fetch of it had completed
+            if ev[0] == 'download':
+                obtained.add(origin)
+        elif ev[0] == 'start':
+            if origin not in obtained:
+                return False                          # a URL of the origin requested before its robots.txt was obtained
+            if rstatus == 200 and info.path.startswith('/private'):
+                return False
+    hit('same' if same_origin else 'two-origins')
+    return all(it.is_processed for it in items)
+
+
 def _redirect_target(o1, o2, p2, code_i, two_hops, robots2_i):
     """An allowed page answers with a redirect to a page that may be disallowed - on the same or on another origin."""
     clear_url_memo()
@@ -380,6 +446,16 @@ HARNESSES = [
       doc='WebProcessorSession.process over 2 (thorough 3) URLs on 1-2 origins differing in scheme / host / port, in symbolic order: in the '
           'request log the robots.txt of an origin comes strictly before any other URL of that origin and at most once; disallowed URLs '
           'are never requested (skipped); with a 503 nothing of the origin is requested and the items end in error (postponed)'),
+    H('concurrent_origin', '_concurrent_origin', 'p1: int, a1: int, p2: int, a2: int, pg1: int, pg2: int, robots_status_i: int, same_origin: bool',
+      pre=['0 <= p1 <= 20 and 1 <= a1 <= 2 and p1 < p2 <= 40 and 1 <= a2 <= 2 and 0 <= pg1 <= 2 and 0 <= pg2 <= 2 and 0 <= robots_status_i <= 1'],
+      parts=[{'tag': 'same' if s_ else 'two', 'fix': {'same_origin': str(s_), 'p2': '40', 'a2': '1', 'robots_status_i': '0'}} for s_ in (True, False)],
+      timeout={'quick': 250, 'thorough': 900}, path_timeout=30, samples=[(0, 1, 40, 1, 0, 1, 0, True), (3, 1, 40, 1, 0, 2, 0, False)],
+      need=['same', 'two-origins'],
+      funcs=['wpull/protocol/http/robots.py:RobotsTxtChecker.can_fetch', 'wpull/protocol/http/robots.py:RobotsTxtChecker.fetch_robots_txt',
+             'wpull/processor/web.py:WebProcessorSession._process_robots'],
+      doc='two items of one or two new origins processed concurrently on a choice-driven loop (network round trips suspend), schedules '
+          'within a preemption bound: nothing of an origin is requested before a robots.txt fetch for it completed, nothing disallowed '
+          'is requested, robots.txt is not requested again after a fetch of it completed'),
     H('redirect_target', '_redirect_target', 'o1: int, o2: int, p2: int, code_i: int, two_hops: bool, robots2_i: int',
       pre=['0 <= o1 <= 3 and 0 <= o2 <= 3 and 0 <= p2 <= 2 and 0 <= code_i <= 4 and 0 <= robots2_i <= 2'],
       parts=[{'tag': 'to%d_hops%d' % (o, h), 'fix': {'two_hops': str(bool(h)), 'o2': str(o)}, 'pre': ['o1 == 0 or o1 == 3']} for o in range(4) for h in (0, 1)],
